@@ -383,7 +383,7 @@ var allModes = []string{"parallel", "parallel", "max", "max", "serial"}
 var propC13 = &dprop{ID: "C13", Sub: "order", Tag: "C13",
 	Rule: "rapid-driven controlled scheduler: random DAG (1-8 tasks; edges along a random permutation) built through a shuffled construction script x mode {parallel, SetMaxParallel(m), serial} x per-attempt outcomes {nil, error, ErrorSkipParents} x retries 0-2 x completion order (which in-flight task returns next is a generated choice) x settle points; entry invariants checked at every task entry; non-trivial = graph has an edge and (>=2 tasks were in flight at once or a retry happened); distinct by (script, mode, full enter/finish history)",
 	Gen: func(t *rapid.T) *DagCase {
-		return genDagCase(t, dagCfg{MaxN: 8, Density: []int{15, 30, 50, 80}, ErrPct: 8, SkipPct: 4, RetryPct: 25, Modes: allModes, CancelPct: 3, ReAdd: 0, Buffered: 10, Templates: true})
+		return genDagCase(t, dagCfg{MaxN: 8, Density: []int{15, 30, 50, 80}, ErrPct: 8, SkipPct: 4, RetryPct: 25, Modes: allModes, CancelPct: 3, ReAdd: 0, Buffered: 10, SortPct: 15, Templates: true})
 	},
 	NT: func(c *DagCase, r *Result) bool { return hasEdge(r.Model) && (r.Overlap || r.Retried) },
 }
